@@ -1,4 +1,3 @@
-from collections import defaultdict
 import re
 import numpy as np
 import networkx as nx
@@ -15,48 +14,6 @@ def _find_next_character(string, chars, start):
         if token in chars:
             return idx+start
     return len(string)
-
-def _expand_branch(mol_graph, current, anchor, recipe):
-    """
-    Small utility function that takes a `mol_graph` and
-    starts to add nodes according to recipe to an anchor.
-
-    Parameters
-    ----------
-    mol_graph: networkx.Graph
-        the starting graph of the molecule
-
-    current: collections.abc.Hashable
-        first node to be added to new graph
-
-    anchor: collections.abc.Hashable
-        anchor to which to connect current node
-
-    recipe: list[(str, int, dict, int)]
-        list storing tuples of node names and
-        the number of times the node has to be added,
-        a dict of attributes and the bond order
-
-    Returns
-    -------
-    networkx.Graph
-    """
-    prev_node = anchor
-    for bdx, (n_mon, attributes, order) in enumerate(recipe):
-        if bdx == 0:
-            anchor = current
-        for _ in range(0, n_mon):
-            mol_graph.add_node(current, **attributes)
-            mol_graph.add_edge(prev_node, current, order=order)
-            # the bond order refers to the bond to the previous node; further
-            # copies of a multiplied node are connected by single bonds
-            order = 1
-
-            prev_node = current
-            current += 1
-
-    prev_node = anchor
-    return mol_graph, current, prev_node
 
 def read_cgsmiles(pattern):
     """
@@ -120,11 +77,11 @@ def read_cgsmiles(pattern):
     # stores one or more branch anchors; each next
     # anchor belongs to a nested branch
     branch_anchor = []
-    # used for storing composition protocol for
-    # for branches; each entry is a list of
-    # branches from extending from the anchor
-    # point
-    recipes = defaultdict(list)
+    # the running number of the branch each node is written in
+    # (0 is the main chain) and the numbers of the open branches
+    node_branch = {}
+    open_branches = [0]
+    n_branches = 0
     # the previous node
     prev_node = None
     # do we have an open branch
@@ -145,10 +102,8 @@ def read_cgsmiles(pattern):
         if pattern[start-1] == '(':
             branching = True
             branch_anchor.append(prev_node)
-            # the recipe for making the branch includes the anchor;
-            # which is hence the first residue in the list
-            # at this point the bond order is still 1 unless we have an expansion
-            recipes[branch_anchor[-1]] = [(1, attributes, 1)]
+            n_branches += 1
+            open_branches.append(n_branches)
 
         # here we check if the atom is followed by a cycle marker
         # in this case we have an open cycle and close it
@@ -222,15 +177,11 @@ def read_cgsmiles(pattern):
         # read the annotations
         attributes = parse_graph_base_node(fragname)
 
-        # if this residue is part of a branch we store it in
-        # the recipe dict together with the anchor residue
-        # and expansion number
-        if branching:
-            recipes[branch_anchor[-1]].append((n_mon, attributes, prev_bond_order))
         # new we add new residue as often as required
         connection = []
         for _ in range(0, n_mon):
             mol_graph.add_node(current, **attributes)
+            node_branch[current] = open_branches[-1]
 
             if prev_node is not None:
                 mol_graph.add_edge(prev_node, current, order=prev_bond_order)
@@ -267,6 +218,7 @@ def read_cgsmiles(pattern):
         while stop <= len(pattern) and branch_stop:
             branching = False
             prev_node = branch_anchor.pop()
+            open_branches.pop()
             if branch_anchor:
                 branching = True
             #========================================
@@ -282,10 +234,11 @@ def read_cgsmiles(pattern):
             if (eon_a+1 < len(pattern) and pattern[eon_a+1] == "|") or\
                (eon_a+2 < len(pattern) and pattern[eon_a+2] == "|" and\
                 pattern[eon_a+1] in symbol_to_order):
+                # the copies of the anchor are connected by single bonds unless
+                # a bond order symbol is given before the expansion character
+                anchor_order = default_bond_order
                 if pattern[eon_a+1] != "|":
                     anchor_order = symbol_to_order[pattern[eon_a+1]]
-                    recipe = recipes[prev_node][0]
-                    recipes[prev_node][0] = (recipe[0], recipe[1], anchor_order)
                     eon_a += 1
                 # If there is one we find the beginning
                 # of the next branch, residue or end of the string
@@ -293,43 +246,28 @@ def read_cgsmiles(pattern):
                 # is how often the branch is expanded.
                 next_characters = ['[', ')', '(', '}'] + list(symbol_to_order.keys())
                 eon_b = _find_next_character(pattern, next_characters, eon_a+1)
-                # without any further copy (i.e. '|1') we stay at the anchor
+                # The anchor and everything that was added after it form a
+                # block of consecutive nodes, which already contains all nested
+                # branches and their expansions. Each further copy of the branch
+                # is a copy of that block, whose anchor is bonded to the anchor
+                # of the previous copy. This allows easy description of graft
+                # polymers. Within a copy the nodes are numbered branch by branch
+                # starting with the anchor. Without any further copy (i.e. '|1')
+                # we stay at the anchor.
+                block = sorted(range(prev_node, current),
+                               key=lambda node: (node_branch[node], node))
+                block_edges = list(mol_graph.subgraph(block).edges(data=True))
                 base_anchor = prev_node
-                # the outermost loop goes over how often a the branch has to be
-                # added to the existing sequence
-                for idx in range(0,int(pattern[eon_a+2:eon_b])-1):
-                    prev_anchor = None
-                    skip = 0
-                    # in principle each branch can contain any number of nested branches
-                    # each branch is itself a recipe that has an anchor atom
-                    for ref_anchor, recipe in list(recipes.items())[len(branch_anchor):]:
-                        # starting from the first nested branch we have to do some
-                        # math to find the anchor atom relative to the first branch
-                        # we also skip the first residue in recipe, which is the
-                        # anchor residue. Only the outermost branch in an expansion
-                        # is expanded including the anchor. This allows easy description
-                        # of graft polymers.
-                        if prev_anchor is not None:
-                            offset = ref_anchor - prev_anchor
-                            prev_node = prev_node + offset
-                            skip = 1
-                        # this function simply adds the residues of the paticular
-                        # branch
-                        mol_graph, current, prev_node = _expand_branch(mol_graph,
-                                                                       current=current,
-                                                                       anchor=prev_node,
-                                                                       recipe=recipe[skip:])
-                        # if this is the first branch we want to set the anchor
-                        # as the base anchor to which we jump back after all nested
-                        # branches have been added
-                        if prev_anchor is None:
-                            base_anchor = prev_node
-                        # store the previous anchor so we can do the math for nested
-                        # branches
-                        prev_anchor = ref_anchor
-                    # the next copy of the branch continues from the anchor of
-                    # this copy and not from the last nested branch
-                    prev_node = base_anchor
+                for idx in range(1, int(pattern[eon_a+2:eon_b])):
+                    copy_of = {node: current+pos for pos, node in enumerate(block)}
+                    for node in block:
+                        mol_graph.add_node(copy_of[node], **mol_graph.nodes[node])
+                        node_branch[copy_of[node]] = node_branch[node]
+                    for node_a, node_b, attrs in block_edges:
+                        mol_graph.add_edge(copy_of[node_a], copy_of[node_b], **attrs)
+                    mol_graph.add_edge(base_anchor, copy_of[prev_node], order=anchor_order)
+                    base_anchor = copy_of[prev_node]
+                    current += len(block)
                 # all branches added; then go back to the base anchor
                 prev_node = base_anchor
             #================================================
@@ -340,10 +278,6 @@ def read_cgsmiles(pattern):
                 close_from = eon_b
             elif eon_a+1 < len(pattern) and pattern[eon_a+1] in symbol_to_order:
                 prev_bond_order = symbol_to_order[pattern[eon_a+1]]
-            # if all branches are done we need to reset the lists
-            # when all nested branches are completed
-            if len(branch_anchor) == 0:
-                recipes = defaultdict(list)
             # is the next character closing the enclosing branch as well?
             branch_stop = close_from < len(pattern) and pattern[close_from] == ')'
 
